@@ -394,6 +394,17 @@ def run(env, rep):
             bad6.append("%s is raised although the stream stays in active_streams" % evs[0])
     rep.check("C09.R6", "delete-removes-stream", n6 >= 2 and not bad6, "deleteStream removes the stream it reports as finished (%d event paths)" % n6,
               "; ".join(sorted(set(bad6))) or "fewer than two event paths in handle_command_delete_stream", bodies["handle_command_delete_stream"].span if "handle_command_delete_stream" in bodies else None)
+    # closeStream / deleteStream act on the stream the command *names* (its first argument), whatever message stream carried the command
+    for hname in ("handle_command_close_stream", "handle_command_delete_stream"):
+        keys_used = set()
+        for p in traces.get(hname, []):
+            for t in p:
+                if t[0] == "mut" and t[2] == "active_streams" and t[1].split("::")[-1] in ("get", "get_mut", "remove", "entry") and t[3]:
+                    keys_used.add(str(t[3][0]))
+        okk = bool(keys_used) and all(re.match(r"^&?\(?elem\[0\](?: of \w+)?(?: as Number\.0)?( as u32|\)|$)", k) for k in keys_used)
+        rep.check("C09.R6", "%s|acts-on-the-named-stream" % hname, okk, "the stream looked up is the command's first argument (%s)" % sorted(keys_used)[:1],
+                  "%s looks the stream up under %s: the stream that is closed / deleted must be the one the command names (its first argument), not the message stream the command arrived on" % (
+                      hname, sorted(k[:80] for k in keys_used) or "nothing"), bodies[hname].span if hname in bodies else None)
     # ------------------------------------------------------------------ R7 ping echo
     paths = traces.get("handle_user_control", [])
     okp = False
